@@ -101,6 +101,12 @@ func graphCase(ctx context.Context, rep *mon.Reporter, rng *mon.Rand, spec *gspe
 				rep.Count("runtime_limit_runs", 1)
 			}
 		}
+		// a call-time step limit designated to a nested (any-predecessor) graph applies to that graph, not
+		// to the graph the option is passed to: with exactly the number of supersteps the nested graph
+		// needs the run is unchanged, with one less it fails with the max-steps error
+		if ref.Err == "" && i == 0 {
+			designatedLimits(ctx, rep, spec, r, in, ref)
+		}
 		// nested graph behaves like the same graph compiled alone
 		if i == 0 && ref.Err == "" {
 			for k, ins := range ref.SubIn {
@@ -169,6 +175,11 @@ func oneRun(ctx context.Context, rep *mon.Reporter, spec *gspec.GraphSpec, r com
 	}
 	switch ref.Err {
 	case "", "maxsteps":
+		if sub == "designated-runtime-limit" && ref.Err != "" {
+			// a nested graph that runs out of steps fails its node in the middle of the parent's step: which
+			// of the sibling nodes of that step still ran is timing (the error class is what is judged)
+			break
+		}
 		if m := gspec.CompareExecsExact(ref, execs); m != nil {
 			violate(rep, sub, m, spec, in, extra)
 			return
@@ -189,6 +200,61 @@ func oneRun(ctx context.Context, rep *mon.Reporter, spec *gspec.GraphSpec, r com
 		}
 		if len(ref.Steps) > limit {
 			rep.Violation(ID+"/reference-self-check", "reference executed more steps than the limit", spec)
+		}
+	}
+}
+
+// designatedLimits: see the call site.
+func designatedLimits(ctx context.Context, rep *mon.Reporter, spec *gspec.GraphSpec, r compose.Runnable[gspec.V, gspec.V], in gspec.V, ref *gspec.RefResult) {
+	type sub struct {
+		path []string
+		g    *gspec.GraphSpec
+	}
+	var subs []sub
+	var walk func(g *gspec.GraphSpec, prefix []string)
+	walk = func(g *gspec.GraphSpec, prefix []string) {
+		for i := range g.Nodes {
+			n := &g.Nodes[i]
+			if n.Sub == nil {
+				continue
+			}
+			p := append(append([]string(nil), prefix...), n.Key)
+			if n.Sub.Mode == gspec.Pregel {
+				subs = append(subs, sub{p, n.Sub})
+			}
+			walk(n.Sub, p)
+		}
+	}
+	walk(spec, nil)
+	for _, sb := range subs {
+		key := sb.path[len(sb.path)-1]
+		ins := ref.SubIn[key]
+		if len(ins) == 0 {
+			continue
+		}
+		need := 0
+		for _, si := range ins {
+			sr := gspec.EvalGraph(sb.g, si, nil)
+			if sr.Err != "" {
+				need = -1
+				break
+			}
+			if sr.NSteps > need {
+				need = sr.NSteps
+			}
+		}
+		if need < 1 {
+			continue
+		}
+		for _, lim := range []int{need, need - 1} {
+			if lim < 1 {
+				continue
+			}
+			env := &gspec.RefEnv{SubMaxSteps: map[string]int{sb.g.Name: lim}}
+			ref2 := gspec.EvalGraph(spec, in, env)
+			opt := compose.WithRuntimeMaxSteps(lim).DesignateNodeWithPath(compose.NewNodePath(sb.path...))
+			oneRun(ctx, rep, spec, r, in, ref2, "I", []compose.Option{opt}, "designated-runtime-limit")
+			rep.Count("designated_runtime_limit_runs", 1)
 		}
 	}
 }
